@@ -119,7 +119,7 @@ CHECKS["C17"] = dict(
 
 CHECKS["C05"] = dict(
     level=E,
-    rule="d in {2,3,6} (thorough 2..6); grids: linear nx in {2,3,4,5,7}, log nx in {2,3,5}, three irregular user grids; time configurations (t_ini,elapsed,numerics) in 7 combinations reached through Evolve; "
+    rule="d in {2,3,6} (thorough 2..6); grids: linear nx in {2,3,4,5,7}, log nx in {2,3,5}, three irregular user grids; time configurations (t_ini,elapsed,numerics) in 12 combinations reached through Evolve (elapsed positive, zero and negative; t_ini positive, zero and negative; the clock landing exactly on 0 with t_ini != 0); "
          "node states = distinct probes per node and rho (2 rhos); operators = all basis vectors + probe; x = every node, mid/quarter/0.9 points, nextafter inside both ends; outside = nextafter/near/far on both sides; "
          "all 7 overloads; 125 dimension sequences of three solvers queried alternately on a fresh thread (thread-local scratch). Oracle: dense Tr(e^{-iH0 tau} rho e^{iH0 tau} O), reference bracket by linear scan, "
          "H0 at x itself; agreement at nodes; unreachable-scale averaging == plain; reachable scale consistent with the averaged table; outside must throw on both sides. distinct by (grid, time cfg, node/x, operator) Every grid reached through six histories on the solver object (vector / natural overload on a fresh object, after an earlier lin / log / user grid with x-queries, by move assignment over a used object).",
